@@ -42,6 +42,7 @@ import (
 	"net/url"
 	"os"
 	"os/exec"
+	"regexp"
 	"runtime/metrics"
 	"strconv"
 	"strings"
@@ -285,12 +286,16 @@ type message struct {
 	errAt                              int
 	zr                                 map[int]bool
 	stop, more                         int
+	hold                               int    // pause after this many reads until the second phase
+	park                               func() // set by runMS
 }
 
 type caseSpec struct {
 	via       string
 	thr       int
 	fast, lag int // V=h: websocket subscribers
+	phase     int // PH=k: messages k.. are logged in a second phase, after lagging subscribers were released
+	join      int // J=n: subscribers joining between the phases
 	msgs      []*message
 }
 
@@ -330,6 +335,16 @@ func parseMS(in []string) (*caseSpec, bool) {
 					return nil, false
 				}
 				cs.thr = n
+			case "PH", "J", "CAP":
+				n, err := strconv.Atoi(v)
+				if err != nil || n < 0 || n > 1<<20 {
+					return nil, false
+				}
+				if k == "PH" {
+					cs.phase = n
+				} else if k == "J" {
+					cs.join = n
+				}
 			case "S":
 				var f, l int
 				if _, err := fmt.Sscanf(v, "%d:%d", &f, &l); err != nil || f < 0 || l < 0 || f+l < 1 || f+l > 8 {
@@ -433,6 +448,8 @@ func parseMS(in []string) (*caseSpec, bool) {
 			m.zr[n] = true
 		case "stop":
 			m.stop, ok = num()
+		case "hold":
+			m.hold, ok = num()
 		case "more":
 			m.more, ok = num()
 			ok = ok && m.more <= 64
@@ -579,9 +596,12 @@ func runMessage(m *message, s *marbl.Stream, mod *marbl.Modifier) (out []string)
 		}()
 		// a consumer gives up eventually (a wrapper that hid the error would
 		// otherwise be read forever)
-		for k := 0; k < 6000; k++ {
+		for k := 0; k < 6000+2*len(m.body); k++ {
 			if m.stop > 0 && k >= m.stop {
 				break
+			}
+			if m.hold > 0 && k == m.hold && m.park != nil {
+				m.park()
 			}
 			buf := make([]byte, rb[k%len(rb)])
 			n, err := wrapped.Read(buf)
@@ -632,19 +652,56 @@ func runMS(in []string) []string {
 	done := make(chan struct{})
 	go func() {
 		var wg sync.WaitGroup
-		start := make(chan struct{})
-		for g := 0; g < cs.thr; g++ {
-			wg.Add(1)
-			go func(g int) {
-				defer wg.Done()
-				<-start
-				for j := g; j < len(cs.msgs); j += cs.thr {
-					outs[j] = runMessage(cs.msgs[j], s, mod)
+		if cs.phase > 0 && cs.phase <= len(cs.msgs) {
+			// two phases, one goroutine per message: phase 1 = messages
+			// [0,PH) up to completion or their hold point; then lagging
+			// subscribers are released and drained, J subscribers join; then
+			// held messages continue and messages [PH,..) are logged
+			var p1 sync.WaitGroup
+			gate := make(chan struct{})
+			for j := range cs.msgs {
+				j := j
+				m := cs.msgs[j]
+				wg.Add(1)
+				if j < cs.phase {
+					p1.Add(1)
+					var once sync.Once
+					m.park = func() { once.Do(p1.Done); <-gate }
+					go func() {
+						defer wg.Done()
+						outs[j] = runMessage(m, s, mod)
+						once.Do(p1.Done)
+					}()
+				} else {
+					go func() {
+						defer wg.Done()
+						<-gate
+						outs[j] = runMessage(m, s, mod)
+					}()
 				}
-			}(g)
+			}
+			p1.Wait()
+			if hs, ok := sk.(*handlerSink); ok {
+				hs.resume()
+				hs.join(cs.join)
+			}
+			close(gate)
+			wg.Wait()
+		} else {
+			start := make(chan struct{})
+			for g := 0; g < cs.thr; g++ {
+				wg.Add(1)
+				go func(g int) {
+					defer wg.Done()
+					<-start
+					for j := g; j < len(cs.msgs); j += cs.thr {
+						outs[j] = runMessage(cs.msgs[j], s, mod)
+					}
+				}(g)
+			}
+			close(start)
+			wg.Wait()
 		}
-		close(start)
-		wg.Wait()
 		if s != nil {
 			s.Close()
 		} else {
@@ -1104,6 +1161,54 @@ func main() {
 		emit("smallframes", in)
 	}
 
+	// ---- 5e. delivery to subscribers of different speeds: a subscriber that
+	// stalls past the capacity of the handler's per-subscriber queue and then
+	// resumes while the stream continues, subscribers joining in mid-stream.
+	// Tiny frames (1-byte reads): it is the frame COUNT that matters.
+	hcap := handlerCapacity()
+	cfg.Count(fmt.Sprintf("handler_queue_capacity=%d", hcap))
+	ovf := func(kind int, r *hx.RNG) []string {
+		big := hcap + r.Range(900, 1500)
+		switch kind {
+		case 0: // the same body continues after the stalled subscriber resumed; one joins in mid-body
+			return []string{"MS", "V=h", "S=1:1", "PH=1", "J=1", fmt.Sprintf("CAP=%d", hcap),
+				"M", "id=" + hexTok("ovfl0000"), fmt.Sprintf("bd=%d:%d", big, r.Intn(1<<30)), "rb=1", fmt.Sprintf("hold=%d", hcap+r.Range(300, 800)),
+				"M", "k=S", "id=" + hexTok("ovfl0000"), fmt.Sprintf("bd=%d:%d", r.Range(50, 400), r.Intn(1<<30)), "rb=1"}
+		case 1: // overflow completed in phase 1, other messages afterwards
+			return []string{"MS", "V=h", "S=1:1", "PH=1", fmt.Sprintf("CAP=%d", hcap),
+				"M", "id=" + hexTok("ovfl0001"), fmt.Sprintf("bd=%d:%d", big, r.Intn(1<<30)), "rb=1",
+				"M", "id=" + hexTok("ovfl0002"), fmt.Sprintf("bd=%d:%d", r.Range(50, 400), r.Intn(1<<30)), "rb=7"}
+		default: // two stalled subscribers, two fast ones, two bodies in flight, two joiners
+			return []string{"MS", "V=h", "S=2:2", "PH=2", "J=2", fmt.Sprintf("CAP=%d", hcap),
+				"M", "id=" + hexTok("ovfl0003"), fmt.Sprintf("bd=%d:%d", big/2, r.Intn(1<<30)), "rb=1", fmt.Sprintf("hold=%d", big/2-200),
+				"M", "id=" + hexTok("ovfl0004"), fmt.Sprintf("bd=%d:%d", big/2+600, r.Intn(1<<30)), "rb=1", fmt.Sprintf("hold=%d", big/2+100),
+				"M", "k=S", "id=" + hexTok("ovfl0004"), fmt.Sprintf("bd=%d:%d", r.Range(50, 400), r.Intn(1<<30)), "rb=3"}
+		}
+	}
+	novf := 2
+	if th {
+		novf = 9
+	}
+	for k := 0; k < novf; k++ {
+		emit("overflow", ovf(k%3, rng.Fork()))
+	}
+	// joiners and stalled subscribers without overflow: cheap, many
+	for k := 0; k < 8*scale; k++ {
+		r := rng.Fork()
+		nm := r.Range(2, 5)
+		ph := r.Range(1, nm)
+		in := []string{"MS", "V=h", []string{"S=1:1", "S=1:2", "S=2:0", "S=1:0"}[r.Intn(4)], fmt.Sprintf("PH=%d", ph), fmt.Sprintf("J=%d", r.Range(1, 2))}
+		for j := 0; j < nm; j++ {
+			sz := r.Range(200, 6000)
+			rb := r.Range(20, 700)
+			in = append(in, "M", "id="+hexTok(fmt.Sprintf("j%07d", j)), fmt.Sprintf("bd=%d:%d", sz, r.Intn(1<<30)), fmt.Sprintf("rb=%d", rb))
+			if j < ph && r.Chance(2, 3) {
+				in = append(in, fmt.Sprintf("hold=%d", r.Range(1, sz/rb+1)))
+			}
+		}
+		emit("join", in)
+	}
+
 	// ---- 6. reader robustness
 	rd := func(kind string, b []byte) { emit(kind, []string{"RD", hx.Hex(b)}) }
 	id := "ABCDEFGH"
@@ -1240,3 +1345,22 @@ func main() {
 // case: a multi-GiB allocation provoked by a hostile length costs ~5 ms in a
 // fresh process but was measured at up to 4 s in one that has run other cases.
 const rdChildCases = 1
+
+// handlerCapacity reads the capacity of the per-subscriber frame queue from
+// the source under test (marbl/handler.go: make(chan []byte, N)), so that the
+// overflow cases scale with it.
+func handlerCapacity() int {
+	repo := os.Getenv("VERIF_REPO")
+	if repo == "" {
+		repo = "/repo"
+	}
+	b, err := os.ReadFile(repo + "/marbl/handler.go")
+	if err == nil {
+		if m := regexp.MustCompile(`make\(chan \[\]byte, *(\d+)\)`).FindSubmatch(b); m != nil {
+			if n, err := strconv.Atoi(string(m[1])); err == nil && n > 0 && n <= 1<<20 {
+				return n
+			}
+		}
+	}
+	return 16384
+}
